@@ -27,6 +27,7 @@ API (all deterministic given the ``random.Random`` passed in):
     gen_bundle(rng, **opts) -> spec            boundary-directed random well-formed bundle (CRCs filled in)
     gen_eid(rng, kinds=...) / gen_status_report(rng, ...) / gen_admin_record(rng)
     BOUNDARY                                   CBOR head boundary integers
+    BLOCK_COUNT_BOUNDARY                       numbers of extension blocks around the item-count head boundaries
     fill_crc(spec) -> spec                     (re)compute every CRC field independently (bitwise CRC)
     encode(spec) -> bytes                      independent encoder (uses the CRC octets stored in the spec)
     decode(raw) -> spec                        independent strict decoder (raises ValueError on anything that
@@ -68,6 +69,9 @@ KNOWN_TYPES = (BLOCK_PREV_NODE, BLOCK_AGE, BLOCK_HOP, BLOCK_BIB, BLOCK_BCB)
 
 # integers around every CBOR head-size boundary
 BOUNDARY = [0, 1, 23, 24, 25, 255, 256, 257, 65535, 65536, 65537, 2 ** 32 - 1, 2 ** 32, 2 ** 32 + 1, 2 ** 64 - 1]
+
+# numbers of extension blocks around the array-head boundaries of the bundle's item count (2 + n_ext = 23/24, 255/256)
+BLOCK_COUNT_BOUNDARY = [21, 22, 23, 24, 25, 253, 254, 255, 256, 257]
 
 # status-report reason codes assigned by RFC 9171 section 9.5 (0..11) and RFC 9172 (12..16)
 REASONS_RFC9171 = list(range(0, 12))
@@ -345,13 +349,19 @@ def gen_data(rng, sizes=(0, 1, 2, 5, 23, 24, 25, 60, 255, 256, 300)):
 
 def gen_bundle(rng, flags=None, crc_types=None, admin=None, n_ext=None, eid_kinds=('none', 'dtn', 'ipn', 'ipn3'),
                payload_sizes=(0, 1, 2, 5, 23, 24, 25, 60, 255, 256, 300), reasons=None, unknown_flag_bits=True,
-               version=7):
+               version=7, tiny_ext=False):
     ''' One well-formed bundle (RFC 9171): unique block numbers, payload block (type 1, number 1) last,
     fragment fields iff IS_FRAGMENT, CRC values present and correct iff CRC type != 0.
 
     :param flags: primary flags (None = a random subset of the defined flags, sometimes plus unassigned bits).
     :param crc_types: list of CRC types, [primary, ext..., payload] (None = random per block).
     :param admin: True / False / None(random): payload is an administrative record (sets PAYLOAD_ADMIN).
+    :param n_ext: number of extension blocks before the payload block.  The block COUNT is a dimension with its own
+        CBOR head boundaries: the bundle array has 2 + n_ext items, so n_ext = 21/22 (23/24 items) and
+        n_ext = 253/254 (255/256 items) straddle the 1/2- and 2/3-octet array heads a definite-length framing
+        would have (BLOCK_COUNT_BOUNDARY).
+    :param tiny_ext: extension blocks of unknown type with 0..3 octets of BTSD and mostly no CRC (cheap bundles
+        with hundreds of blocks).
     '''
     if flags is None:
         flags = 0
@@ -375,23 +385,26 @@ def gen_bundle(rng, flags=None, crc_types=None, admin=None, n_ext=None, eid_kind
                 dest=gen_eid(rng, eid_kinds), src=gen_eid(rng, eid_kinds), report_to=gen_eid(rng, eid_kinds),
                 time=gen_uint(rng), seq=gen_uint(rng), lifetime=gen_uint(rng),
                 frag=([gen_uint(rng), gen_uint(rng)] if flags & FLAG_IS_FRAGMENT else None), crc=None, blocks=[])
-    nums = rng.sample(range(2, 40), n_ext)
+    nums = rng.sample(range(2, max(40, 2 * n_ext + 4)), n_ext)
     if n_ext and rng.random() < 0.3:
-        nums[0] = rng.choice([24, 255, 256, 65536, 2 ** 32, 2 ** 64 - 1])
+        nums[0] = rng.choice([65536, 2 ** 32, 2 ** 64 - 1])
     for (idx, num) in enumerate(nums):
-        if rng.random() < 0.6:
+        if tiny_ext:
+            btype = rng.choice([2, 3, 5, 8, 9, 13, 23, 24, 191, 192, 255, 256])
+        elif rng.random() < 0.6:
             btype = rng.choice(KNOWN_TYPES)
         else:
             btype = rng.choice([2, 3, 5, 8, 9, 13, 23, 24, 191, 192, 255, 256, 65535, 65536, 2 ** 32, 2 ** 64 - 1])
         view = gen_view(rng, btype)
-        data = view_data(view) if view['kind'] != 'raw' else gen_data(rng)
+        data = view_data(view) if view['kind'] != 'raw' else gen_data(rng, (0, 1, 2, 3) if tiny_ext else (0, 1, 2, 5, 23, 24, 25, 60, 255, 256, 300))
         bflags = 0
         for bit in BLOCK_FLAGS:
             if rng.random() < 0.3:
                 bflags |= bit
         if rng.random() < 0.1:
             bflags |= rng.choice([0x08, 0x20, 0x40, 2 ** 32])
-        spec['blocks'].append(dict(type=btype, num=num, flags=bflags, crc_type=crc_for(1 + idx), data=data.hex(), crc=None, view=view))
+        bcrc = crc_for(1 + idx) if not (tiny_ext and crc_types is None and rng.random() < 0.8) else 0
+        spec['blocks'].append(dict(type=btype, num=num, flags=bflags, crc_type=bcrc, data=data.hex(), crc=None, view=view))
     if admin:
         view = dict(kind='admin', record=gen_admin_record(rng, reasons=reasons))
         data = view_data(view)
@@ -465,7 +478,10 @@ def encode(spec):
 def _loads_canonical(data):
     ''' Exactly one item, nothing after it, in the shortest definite-length form. '''
     stream = io.BytesIO(data)
-    item = cbor2.CBORDecoder(stream).decode()
+    try:
+        item = cbor2.CBORDecoder(stream).decode()
+    except Exception as err:
+        raise ValueError('not CBOR: %s' % err)
     if stream.tell() != len(data):
         raise ValueError('trailing octets after the item')
     if cbor2.dumps(item) != data:
@@ -490,7 +506,10 @@ def split_items(raw):
             if start + 1 != len(raw):
                 raise ValueError('trailing octets after break')
             return parts
-        item = dec.decode()
+        try:
+            item = dec.decode()
+        except Exception as err:   # cbor2 raises several unrelated classes
+            raise ValueError('not CBOR at offset %d: %s' % (start, err))
         parts.append((item, raw[start:stream.tell()]))
 
 
